@@ -318,32 +318,64 @@ func (vfs *MemFS) Lchown(name string, uid, gid int) error {
 // Link creates newname as a hard link to the oldname file.
 // If there is an error, it will be of type *LinkError.
 func (vfs *MemFS) Link(oldname, newname string) error {
+	for {
+		done, err := vfs.link(oldname, newname)
+		if done {
+			return err
+		}
+	}
+}
+
+// link is one attempt of Link. It returns done == false when oldname changed
+// between its lookup, which is made without holding locks, and the locking of the two directories.
+func (vfs *MemFS) link(oldname, newname string) (done bool, err error) {
 	const op = "link"
 
-	_, oChild, _, oerr := vfs.searchNode(oldname, slmLstat)
+	oParent, oChild, oPI, oerr := vfs.searchNode(oldname, slmLstat)
 	if oerr != vfs.err.FileExists || oChild == nil {
-		return &os.LinkError{Op: op, Old: oldname, New: newname, Err: oerr}
+		return true, &os.LinkError{Op: op, Old: oldname, New: newname, Err: oerr}
 	}
 
 	nParent, _, pi, nerr := vfs.searchNode(newname, slmLstat)
 	if !vfs.isNotExist(nerr) {
+		// Start again if oldname was removed or replaced while newname was looked up (Rename of oldname to newname).
+		if _, c, _, _ := vfs.searchNode(oldname, slmLstat); c != oChild {
+			return false, nil
+		}
+
 		if vfs.OSType() == avfs.OsWindows {
 			nerr = avfs.ErrWinAlreadyExists
 		}
 
-		return &os.LinkError{Op: op, Old: oldname, New: newname, Err: nerr}
+		return true, &os.LinkError{Op: op, Old: oldname, New: newname, Err: nerr}
 	}
 
 	if !pi.IsLast() {
 		// a directory of newname is missing, not only its last element.
-		return &os.LinkError{Op: op, Old: oldname, New: newname, Err: nerr}
+		return true, &os.LinkError{Op: op, Old: oldname, New: newname, Err: nerr}
 	}
 
-	nParent.mu.Lock()
-	defer nParent.mu.Unlock()
+	// Lock the two directories in the same order as Rename.
+	first, second := oParent, nParent
+	if oDir, nDir := oPI.Left(), pi.Left(); len(nDir) < len(oDir) || len(nDir) == len(oDir) && nDir < oDir {
+		first, second = nParent, oParent
+	}
+
+	first.mu.Lock()
+	defer first.mu.Unlock()
+
+	if second != first {
+		second.mu.Lock()
+		defer second.mu.Unlock()
+	}
+
+	// Start again if oldname was removed or replaced since it was looked up (the root directory has no entry).
+	if oChild != node(oParent) && oParent.children[oPI.Part()] != oChild {
+		return false, nil
+	}
 
 	if !nParent.checkPermission(avfs.OpenWrite, vfs.User()) {
-		return &os.LinkError{Op: op, Old: oldname, New: newname, Err: vfs.err.PermDenied}
+		return true, &os.LinkError{Op: op, Old: oldname, New: newname, Err: vfs.err.PermDenied}
 	}
 
 	c, ok := oChild.(*fileNode)
@@ -353,7 +385,7 @@ func (vfs *MemFS) Link(oldname, newname string) error {
 			err = avfs.ErrWinAccessDenied
 		}
 
-		return &os.LinkError{Op: op, Old: oldname, New: newname, Err: err}
+		return true, &os.LinkError{Op: op, Old: oldname, New: newname, Err: err}
 	}
 
 	if nParent.children[pi.Part()] != nil {
@@ -363,7 +395,7 @@ func (vfs *MemFS) Link(oldname, newname string) error {
 			err = avfs.ErrWinAlreadyExists
 		}
 
-		return &os.LinkError{Op: op, Old: oldname, New: newname, Err: err}
+		return true, &os.LinkError{Op: op, Old: oldname, New: newname, Err: err}
 	}
 
 	c.mu.Lock()
@@ -372,7 +404,7 @@ func (vfs *MemFS) Link(oldname, newname string) error {
 	c.nlink++
 	c.mu.Unlock()
 
-	return nil
+	return true, nil
 }
 
 // Lstat returns a FileInfo describing the named file.
